@@ -1295,6 +1295,26 @@ def intrinsic(s, st, name, A, args):
         if is_c(v):
             return int(format(v, '0%db' % bits)[::-1], 2)
         return z3.Concat(*[z3.Extract(i, i, v) for i in range(bits)])
+    if '.with.overflow.' in name:
+        import re as _re
+        m = _re.match(r'@llvm\.([su])(add|sub|mul)\.with\.overflow\.i(\d+)', name)
+        if m:
+            sg, op, bits = m.group(1) == 's', m.group(2), int(m.group(3))
+            a, b = A[0], A[1]
+            if is_c(a) and is_c(b):
+                if sg:
+                    a = a - (1 << bits) if a >> (bits - 1) else a
+                    b = b - (1 << bits) if b >> (bits - 1) else b
+                r = a + b if op == 'add' else (a - b if op == 'sub' else a * b)
+                lo, hi = (-(1 << (bits - 1)), (1 << (bits - 1)) - 1) if sg else (0, (1 << bits) - 1)
+                return [r & mask(bits), 0 if lo <= r <= hi else 1]
+            a, b = bv(a, bits), bv(b, bits)
+            extra = bits if op == 'mul' else 1
+            ext = z3.SignExt if sg else z3.ZeroExt
+            wa, wb = ext(extra, a), ext(extra, b)
+            wr = wa + wb if op == 'add' else (wa - wb if op == 'sub' else wa * wb)
+            res = z3.Extract(bits - 1, 0, wr)
+            return [res, wr != ext(extra, res)]
     if name.startswith('@llvm.trap') or name.startswith('@llvm.ubsantrap'):
         s.exits.append((list(st.pc), 'trap', name))
         return DEAD
